@@ -184,7 +184,7 @@ func H_C12_concurrent() {
 	}
 	c1 := WithConfig(opts...)
 	snap1 := cfgSnap(c1)
-	_ = isCI
+	forceInit()
 	freezeCfg(c1, "shared Config c1")
 	apis := [2]int{vxrt.Choice("api-A", 5), vxrt.Choice("api-B", 5)}
 	// where each call stores when issued alone through an identical Config
